@@ -48,7 +48,9 @@ Stamp(st, i, p) == st.stamps[i][p]
 \* (what was displayed before the plan began says nothing about this plan: the display must have been refreshed)
 NoResource(st, gg, p, v) == /\ p \notin gg.preq /\ View(st, v, p) = "FATAL" /\ \A i \in 1..T.n : Truth(st, p, i) # "FATAL"
                             /\ gg.stamp0 # <<>> /\ Stamp(st, v, p) # gg.stamp0[p][v]
-GivenUp(st, gg, p, v) == \/ p \in gg.req /\ ((View(st, v, p) \in StoppedLike /\ Stamp(st, v, p) # gg.stamp[p][v])
+\* (a requested process displayed STOPPING: somebody - another instance's plan, a user - asked to stop it while it was
+\*  starting; the requester gives this start up at once)
+GivenUp(st, gg, p, v) == \/ p \in gg.req /\ ((View(st, v, p) \in StoppedLike \cup {"STOPPING"} /\ Stamp(st, v, p) # gg.stamp[p][v])
                                             \/ p \in gg.lost \/ ~st.alive[T.procs[p].target])
                          \/ NoResource(st, gg, p, v)
 Done(st, gg, p, v) ==
